@@ -1,6 +1,4 @@
 CONSTANTS
   Neg = ""
 SPECIFICATION TSpec
-INVARIANT TOwnership
-INVARIANT TLinesWF
 CHECK_DEADLOCK FALSE
